@@ -46,7 +46,7 @@ pub enum K {
 pub const KINDS: [K; 10] = [K::Bool, K::Long, K::Str, K::Ent, K::Set, K::Rec, K::Dec, K::Ip, K::Dt, K::Dur];
 
 /// attribute name -> conventional kind
-pub const ATTRS: [(&str, K); 14] = [
+pub const ATTRS: [(&str, K); 17] = [
     ("n", K::Long),
     ("s", K::Str),
     ("flag", K::Bool),
@@ -61,6 +61,10 @@ pub const ATTRS: [(&str, K); 14] = [
     ("has space", K::Str),
     ("\u{1F600}", K::Bool),
     ("", K::Long),
+    // ASCII start followed by non-ASCII word characters: must still be printed quoted
+    ("caf\u{e9}", K::Str),
+    ("a\u{301}", K::Long),
+    ("x1\u{4e2d}", K::Bool),
 ];
 
 pub const TAG_KEYS: [&str; 4] = ["k", "s", "", "a b"];
